@@ -1241,7 +1241,15 @@ INVALID = {
     'vint':   [('not-integer', 'abc', False), ('empty', '', False), ('below-min', '-1', False), ('above-max', '10', False),
                ('below-min', -1, True), ('above-max', 10, True), ('wrong-type', True, True), ('not-integer', '3.5', False)],
     'vcombo': [('outside-choices', 'zz', False), ('empty', '', False), ('wrong-type', True, True), ('wrong-type', 2, True)],
-    'varr':   [('outside-choices', 'x,q', False), ('outside-choices', ['q'], True), ('wrong-type', 3, True), ('wrong-type', True, True)],
+    # Build-options.md "Arrays represent an array of strings"; on the command line a value is either comma separated or, when it
+    # starts with a bracket, the list form "-Doption=['a,b', 'c,d']": a bracket text that is no list is malformed, a list of
+    # anything but strings is no array of strings (as text from every source, typed from the machine file / dict form / value:)
+    'varr':   [('outside-choices', 'x,q', False), ('outside-choices', ['q'], True), ('wrong-type', 3, True), ('wrong-type', True, True),
+               ('malformed-list', '[x', False), ('malformed-list', "['x'", False), ('non-string-elements', '[1, 2]', False),
+               ('non-string-elements', [1, 2], True)],
+    'varrf':  [('malformed-list', '[p', False), ('non-string-elements', [1, 2], True), ('non-string-elements', '[1, 2]', False),
+               ('wrong-type', 3, True)],
+    'force_fallback_for': [('malformed-list', '[fa', False)],
     'vfeat':  [('outside-choices', 'true', False), ('outside-choices', 'maybe', False), ('empty', '', False), ('wrong-type', True, True)],
     'warning_level': [('outside-choices', '4', False), ('empty', '', False)],
     'werror': [('not-boolean', 'yes', False)],
@@ -1505,7 +1513,14 @@ def judge(case, res, tier):
     meta = case['meta']
     fam = case['fam']
     if res.get('crash'):
-        probs.append(('C07:unhandled-exception:%s:tier%s' % (fam, tier), 'python exception instead of a Meson error: %s' % (res['crash'],)))
+        if 'class' in meta and 'source' in meta:
+            # an invalid value: the class of the value and the exception that escapes name the defect (the same one is reached from
+            # several sources and in both tiers)
+            excs = re.findall(r'^([A-Za-z_][\w.]*(?:Error|Exception))\b', res['crash'][1], re.M)
+            key = 'C07:unhandled-exception:invalid-value:%s:%s:%s' % (kind_of(meta['name'])['type'], meta['class'], excs[-1] if excs else 'unknown')
+        else:
+            key = 'C07:unhandled-exception:%s:tier%s' % (fam, tier)
+        probs.append((key, 'python exception instead of a Meson error (%s): %s' % (json.dumps(meta, default=repr), res['crash'],)))
         return probs, st
     for b in res.get('bad', []):
         probs.append(('C07:stored-invalid:%s:%s' % (fam, b[2]), 'stored value %s of %s violates its own option object (%s)' % (b[1], b[0], b[2])))
